@@ -329,7 +329,10 @@ Inductive refkind := RefNone | RefOne | RefMany.
 Inductive skind :=
 | KLeaf                              (* any other property type: black box *)
 | KEmbedded (ckey : string)          (* EmbeddedObjectProperty(type): a dict is passed to the class's constructor *)
-| KListEmbedded (ckey : string).     (* ListProperty(class): every element that is a mapping is passed to the constructor *)
+| KListEmbedded (ckey : string)      (* ListProperty(class): every element that is a mapping is passed to the constructor *)
+| KExtensions (v20 : bool)           (* ExtensionsProperty(spec_version): entries of registered extensions are constructed *)
+| KStixObjects (v20 : bool)          (* ListProperty(STIXObjectProperty(spec_version)): every element is parsed (Bundle.objects) *)
+| KObservables (v20 : bool).         (* ObservableProperty(spec_version): every member is parsed as an observable *)
 
 Record slot := { s_name : ustring; s_required : bool; s_default : bool; s_ref : refkind; s_kind : skind }.
 
@@ -381,12 +384,13 @@ Record cls := {
   c_pre : list prehook;
   c_cons : list conshook }.
 
-Record extreg := { x_name : ustring; x_toplevel : option (list slot) }.   (* None: no _toplevel_properties attribute *)
+Record extreg := { x_name : ustring; x_toplevel : option (list slot);    (* None: no _toplevel_properties attribute *)
+                   x_cls : option cls }.                                  (* the registered extension class *)
 
 Record registry := {
   r_objects20 : list (ustring * cls); r_observables20 : list (ustring * cls); r_markings20 : list (ustring * cls);
   r_objects21 : list (ustring * cls); r_observables21 : list (ustring * cls); r_markings21 : list (ustring * cls);
-  r_extensions21 : list extreg }.
+  r_extensions21 : list extreg; r_extensions20 : list extreg }.
 
 Fixpoint alookup {A} (k : ustring) (l : list (ustring * A)) : option A :=
   match l with
@@ -1017,19 +1021,103 @@ Definition is_val {A} (r : res A) : bool := match r with Val _ => true | Exc _ _
 
 (* what clean() of an embedded-object slot lets out of the wrapper: Ok if the construction can succeed,
    InvalidValueError if it can fail (or `extra`: CustomContentError for custom content in strict mode) *)
-Definition wrap_embedded (extra : bool) (m : M unit) : M unit :=
-  ((if existsb is_val m then [Val tt] else []) ++
-   (if extra || existsb (fun r => negb (is_val r)) m then [Exc (Known K_InvalidValueError) S_lib] else []))%list.
+Definition ive : res unit := Exc (Known K_InvalidValueError) S_lib.
 
-Fixpoint clean_struct (fuel : nat) (V : variant) (R : registry) (strictext : bool) (classes : list (string * cls)) : cleaner :=
+(* `okp a`: a returned value with which clean() goes on to succeed *)
+Definition wrap_gen {A} (okp : A -> bool) (extra : bool) (m : M A) : M unit :=
+  ((if existsb (fun r => match r with Val a => okp a | Exc _ _ => false end) m then [Val tt] else []) ++
+   (if extra || existsb (fun r => match r with Val a => negb (okp a) | Exc _ _ => true end) m then [ive] else []))%list.
+
+Definition wrap_embedded (extra : bool) (m : M unit) : M unit := wrap_gen (fun _ => true) extra m.
+
+Definition seq_all (ms : list (M unit)) : M unit := fold_right (fun m acc => m ;;; acc) (ret tt) ms.
+
+(* ListProperty(class).clean *)
+Definition struct_list (subf : list (ustring * jvalue) -> M unit) (v : jvalue) : M unit :=
+  match v with
+  | JArr [] => fail K_InvalidValueError                 (* "must not be empty" *)
+  | JArr l => seq_all (map (fun item => match item with
+                                        | JObj m => subf m
+                                        | _ => fail K_InvalidValueError     (* "Can't create a ... out of ..." *)
+                                        end) l)
+  | _ => fail K_InvalidValueError     (* not iterable / a str or the keys of a dict are not mappings / empty *)
+  end.
+
+(* ExtensionsProperty.clean *)
+Definition struct_extensions (exts : list extreg) (subf : cls -> list (ustring * jvalue) -> M unit) (ac : bool) (v : jvalue) : M unit :=
+  match v with
+  | JObj m =>
+      seq_all (map (fun kv =>
+                 match find (fun x => ustr_eqb (x_name x) (fst kv)) exts with
+                 | Some x =>
+                     match x_cls x with
+                     | Some c => match snd kv with
+                                 | JObj em => subf c em
+                                 | _ => fail K_InvalidValueError          (* "Can't create extension ... from ..." *)
+                                 end
+                     | None => may [K_InvalidValueError]
+                     end
+                 | None =>
+                     if ustr_prefix (us "extension-definition--") (fst kv) then may [K_InvalidValueError]   (* _validate_id(key) *)
+                     else if ac then ret tt
+                     else fail K_InvalidValueError                         (* "Can't parse unknown extension type" *)
+                 end) m)
+  | JStr _ | JArr _ => may [K_InvalidValueError]       (* _get_dict on a text / a list of pairs: not followed *)
+  | _ => fail K_InvalidValueError
+  end.
+
+Definition parsed_ok (ac : bool) (p : parsed) : bool :=
+  match p with PObject => true | PDictAsIs => ac end.     (* a dict returned as is counts as custom content *)
+
+(* ListProperty(STIXObjectProperty(spec_version)).clean *)
+Definition struct_objects (ver20 ac : bool) (parsef : jvalue -> M parsed) (v : jvalue) : M unit :=
+  let item := fun (x : jvalue) =>
+    match x with
+    | JObj [] => fail K_InvalidValueError
+    | JObj m =>
+        if match jlookup (us "type") m with Some t => str_is t (us "bundle") | None => false end then fail K_InvalidValueError
+        else if ver20 && mem_key (us "spec_version") m then fail K_InvalidValueError
+        else wrap_gen (parsed_ok ac) (ver20 || mem_key (us "custom_properties") m) (parsef x)
+    | JStr _ | JArr _ => may [K_InvalidValueError]
+    | _ => fail K_InvalidValueError
+    end in
+  match v with
+  | JArr [] => fail K_InvalidValueError
+  | JArr l => seq_all (map item l)
+  | JStr _ => may [K_InvalidValueError]
+  | JObj [] => fail K_InvalidValueError
+  | JObj _ => may [K_InvalidValueError]               (* the keys, each taken for a JSON text *)
+  | _ => fail K_InvalidValueError
+  end.
+
+(* ObservableProperty(spec_version).clean *)
+Definition struct_observables (ac : bool) (pof : jvalue -> jvalue -> M parsed) (v : jvalue) : M unit :=
+  match v with
+  | JObj [] => fail K_InvalidValueError
+  | JObj m =>
+      (* valid_refs = {k: v['type'] ...}: every member must be a dict with a type *)
+      if forallb (fun kv => match snd kv with JObj om => mem_key (us "type") om | _ => false end) m then
+        let vrefs := JObj (map (fun kv => (fst kv, match snd kv with
+                                                    | JObj om => match jlookup (us "type") om with Some t => t | None => JNull end
+                                                    | _ => JNull end)) m) in
+        seq_all (map (fun kv => wrap_gen (parsed_ok ac)
+                                  (match snd kv with JObj om => mem_key (us "custom_properties") om | _ => false end)
+                                  (pof (snd kv) vrefs)) m)
+      else fail K_InvalidValueError
+  | JStr _ | JArr _ => may [K_InvalidValueError]
+  | _ => fail K_InvalidValueError
+  end.
+
+Fixpoint clean_struct (fuel : nat) (V : variant) (R : registry) (strictext refuse : bool) (classes : list (string * cls)) : cleaner :=
   fun ac io s ov =>
     match fuel with
     | O => may [K_InvalidValueError]
     | S f =>
+        let self := clean_struct f V R strictext refuse classes in
+        let nodec : decoder := fun _ => TBad in
         let sub := fun (c : cls) (io' : bool) (m : list (ustring * jvalue)) =>
                      wrap_embedded (mem_key (us "custom_properties") m)
-                       (call_check m false ;;;
-                        construct V R (clean_struct f V R strictext classes) strictext (fun _ => TBad) c ac io' m) in
+                       (call_check m false ;;; construct V R self strictext nodec c ac io' m) in
         match ov with
         | None => may [K_InvalidValueError]
         | Some v =>
@@ -1049,18 +1137,16 @@ Fixpoint clean_struct (fuel : nat) (V : variant) (R : registry) (strictext : boo
             | KListEmbedded k =>
                 match class_named k classes with
                 | None => may [K_InvalidValueError]
-                | Some c =>
-                    match v with
-                    | JArr [] => fail K_InvalidValueError      (* "must not be empty" *)
-                    | JArr l =>
-                        fold_right (fun item acc =>
-                                      match item with
-                                      | JObj m => sub c io m ;;; acc
-                                      | _ => fail K_InvalidValueError         (* "Can't create a ... out of ..." *)
-                                      end) (ret tt) l
-                    | _ => fail K_InvalidValueError     (* not iterable / a str or the keys of a dict are not mappings / empty *)
-                    end
+                | Some c => struct_list (sub c io) v
                 end
+            | KExtensions v20 =>
+                struct_extensions (if v20 then r_extensions20 R else r_extensions21 R) (fun c m => sub c io m) ac v
+            | KStixObjects v20 =>
+                struct_objects v20 ac (fun x => parse V R self strictext refuse nodec x ac io None) v
+            | KObservables v20 =>
+                struct_observables ac
+                  (fun x vr => parse_observable V R self strictext refuse nodec x vr ac false
+                                 (Some (us (if v20 then "2.0" else "2.1")))) v
             end
         end
     end.
